@@ -56,6 +56,18 @@ class Adapter(object):
     self.srv = srv
     self.kind = kind
     self.lease_ticks = lease_ticks
+    self._cfg = dict(nports=nports, served=served, veto=veto, has_router=has_router, has_dns=has_dns, seed=seed,
+                     dpid=dpid)
+    self.variant = variant
+    self.up = False
+    self.net = None
+
+  def _build(self, variant):
+    """Concretise and boot everything (done at ConnUp, so that a behaviour can name its own variant)."""
+    N, srv, kind = self.N, self.srv, self.kind
+    c = self._cfg
+    nports, served, veto, has_router, has_dns, seed, dpid = (c["nports"], c["served"], c["veto"], c["has_router"],
+                                                             c["has_dns"], c["seed"], c["dpid"])
     nt = _net(variant)
     base, bits = nt["network"].split("/")
     self.bits = int(bits)
@@ -90,7 +102,6 @@ class Adapter(object):
                       dns=((() if has_router else xn.ip_str(self.dns)) if has_dns else None),
                       kind=kind, nports=nports, dpid=self.dpid, veto=vt,
                       served=(self.served if len(self.served) < nports else None))
-    self.up = False
 
   # ---------------------------------------------------------------- concretisation
   def _want(self, w, salt):
@@ -234,6 +245,7 @@ class Adapter(object):
   # ---------------------------------------------------------------- actions
   def step(self, a, args):
     if a == "ConnUp":
+      self._build((args or {}).get("variant", self.variant))
       msgs = self.net.connect()
       self.up = True
       n = 0
